@@ -170,6 +170,21 @@ class SimErrorCalculator(ErrorCalculator):
         self.asked += 1
         v = self.answer(self.question(refine_object)) * getattr(self, "scale", 1.0)
         bias = getattr(self, "bias", None)
+        if bias and bias[0] == "window":
+            # clustered driver: per dimension every interval that overlaps a window of the domain answers 1 (ties: with a margin
+            # below or at 1 the whole cluster is refined in every step), everything else is damped
+            if hasattr(refine_object, "this_dim"):
+                d = int(refine_object.this_dim)
+                lo, hi = self.domain[0][d], self.domain[1][d]
+                c, w = bias[1][d]
+                if len(bias) > 3 and bias[3] == "wander" and self.use_epoch:
+                    # the cluster moves and breathes from step to step (keyed by dimension and evaluation counter)
+                    c = c + (H(self.key, "wc", d, self.epoch) - 0.5) * w
+                    w = w * (0.5, 1.0, 1.0, 2.0)[int(H(self.key, "ww", d, self.epoch) * 4) % 4]
+                s0, s1 = (float(refine_object.start) - lo) / (hi - lo), (float(refine_object.end) - lo) / (hi - lo)
+                inside = s1 > c - 0.5 * w and s0 < c + 0.5 * w
+                return getattr(self, "scale", 1.0) if inside else v * bias[2]
+            return v
         if bias and bias[0] == "focus":
             # sharply localised driver: the interval (area) that contains the target point answers 1, everything else is damped
             if hasattr(refine_object, "this_dim"):
